@@ -78,7 +78,10 @@ def main():
                         print("   ", l[:int(os.environ.get("ALPHA_W", "300"))])
         print("checks not silent:", bad)
     finally:
-        shutil.rmtree(d, ignore_errors=True)
+        if "--keep" in sys.argv:
+            print("kept:", d)
+        else:
+            shutil.rmtree(d, ignore_errors=True)
 
 
 
@@ -152,6 +155,51 @@ _old_apply = apply
 def apply(dst, mode):   # noqa: F811
     r = _old_apply(dst, mode)
     return r + InlineTemp.n
+
+
+
+
+# ---- kwargs: f(a, b, c) -> f(p0=a, p1=b, p2=c) for calls of module-level functions of the package whose signature is known
+#      (no *args in the signature, no starred argument at the call); evaluation order of the arguments is unchanged.
+def _kwargs_apply(dst):
+    repo = core.Repo(dst)
+    n = 0
+    for rel, mi in repo.mods.items():
+        path = os.path.join(dst, rel)
+        src = open(path, encoding="utf-8").read()
+        tree = ast.parse(src)
+        changed = False
+        for c in ast.walk(tree):
+            if isinstance(c, ast.Call) and isinstance(c.func, ast.Name) and c.args and not any(isinstance(a, ast.Starred) for a in c.args) \
+                    and not any(k.arg is None for k in c.keywords):
+                r = repo.resolve_name(mi, c.func.id)
+                if not isinstance(r, core.FuncInfo) or r.cls is not None:
+                    continue
+                fa = r.node.args
+                if fa.vararg is not None or fa.posonlyargs or r.node.decorator_list:
+                    continue
+                names = [a.arg for a in fa.args]
+                if len(c.args) > len(names):
+                    continue
+                c.keywords = [ast.keyword(arg=names[i], value=a) for i, a in enumerate(c.args)] + c.keywords
+                c.args = []
+                n += 1
+                changed = True
+        if changed:
+            ast.fix_missing_locations(tree)
+            new = "\n".join(l for l in src.split("\n")[:3] if l.startswith("#")) + "\n" + ast.unparse(tree) + "\n"
+            compile(new, path, "exec")
+            open(path, "w", encoding="utf-8").write(new)
+    return n
+
+
+_old_apply2 = apply
+
+
+def apply(dst, mode):   # noqa: F811
+    if mode == "kwargs":
+        return _kwargs_apply(dst)
+    return _old_apply2(dst, mode)
 
 
 if __name__ == "__main__":
